@@ -5,6 +5,9 @@ CONSTANTS
     MaxClock = 2
     Design = "random"
     Vias = {"gen", "burst", "par", "upload"}
+    Stations = {}
+    Encs = {}
+    Shared = {}
     Mode = "edges"
     Depth = 0
 VIEW View
